@@ -26,31 +26,42 @@
 (*   EvsMatch: the parser's SequenceEvent list against MacroExpand          *)
 (*   (compile check).                                                       *)
 (* Part 2  monitor over the observable alphabet, one record per activation. *)
-(*  Sharp zone = an activation none of whose keys is used by another        *)
-(*  activation running at the same time, with at most `cap` running:        *)
+(*  Sharp zone = activations none of whose keys is used by another          *)
+(*  activation running at the same time (a cancelled one in its two clean-  *)
+(*  up ticks excepted), with at most `cap` macros started since the last    *)
+(*  idle point; everything else is summarised (dused, over) and only the    *)
+(*  rules under "Everywhere" apply to it.                                   *)
 (*   S1 the OS events on the macro's keys are exactly the next step          *)
+(*   O1 (S1 where a key step overtakes a pending unicode item)               *)
 (*   S2 no two steps of one activation in the same tick                      *)
 (*   D1 a delay n => at least n ticks between the neighbouring steps         *)
 (*   S3 every step is played (kanata does not go idle before)                *)
-(*   C1 after a cancellation took effect no further step is played           *)
+(*   C1 after a cancellation took effect no further key step is played       *)
 (*   C2 ... and every key the activation holds is up one tick later          *)
-(*   C3 a key press while a cancel-on-press macro is in progress cancels     *)
+(*   C3 a key press while the only cancel-on-press macro started since the   *)
+(*      last idle point is in progress (first round) cancels                 *)
 (*   R1 kanata is not idle while a repeating macro's key is held             *)
 (*   R2 a new round starts only if the key was still held when the round     *)
 (*      before ended                                                        *)
 (*  Everywhere:                                                             *)
 (*   S0 no event on a macro's key while no macro using it runs               *)
-(*   E1 when kanata is idle no key of a macro is down at the OS              *)
+(*   E1 when kanata is idle (two ticks, no input) no macro key is down       *)
 (*   B1 kanata does not report "can block" while a key pressed by a macro    *)
 (*      is still down (a blocked loop would leave it down until next input)  *)
 (*   V1 virtual-key items of a completed macro acted                         *)
+(*  Soft on purpose: how long a macro takes (no upper bounds except through  *)
+(*  idle), which of several modifiers goes up first, what happens to macros  *)
+(*  beyond the documented capacity except E1, whether a press cancels when   *)
+(*  the trigger state is ambiguous, late unicode items of cancelled macros.  *)
 (*  Tick conventions (DESIGN App. A): an event arriving on an empty queue is *)
-(*  processed on the next tick, queued events one per tick (ql).            *)
+(*  processed on the next tick, queued events one per tick (ql); a release-  *)
+(*  cancel takes effect on the tick its release is processed (one more step  *)
+(*  may come out on that tick), cancel-on-press at the arrival of the press. *)
 (***************************************************************************)
 EXTENDS Obs
 
 \* ------------------------------------------------------------------ Part 1: expansion
-Raw(t, k, ks, n, ch) == [t |-> t, k |-> k, ks |-> ks, n |-> n, ch |-> ch]
+Raw(t, k, ks, n, ch) == [t |-> t, k |-> k, ks |-> ks, n |-> n, ch |-> ch, w |-> 0]
 
 RECURSIVE XItems(_)
 XItem(it) ==
@@ -88,7 +99,7 @@ VisRec(norm, w, occ, acc) ==
   ELSE LET s == Head(norm) IN
        IF s.t = "w" THEN VisRec(Tail(norm), w + s.n, occ + s.n, acc)
        ELSE IF s.t = "v" THEN VisRec(Tail(norm), w, occ + 1, acc)
-       ELSE VisRec(Tail(norm), 0, 0, Append(acc, [s EXCEPT !.n = OMax(1, w)]))
+       ELSE VisRec(Tail(norm), 0, 0, Append(acc, [s EXCEPT !.n = OMax(1, w), !.w = w]))
 
 RECURSIVE SumSeq(_)
 SumSeq(s) == IF s = <<>> THEN 0 ELSE Head(s) + SumSeq(Tail(s))
@@ -97,6 +108,7 @@ MInfo(mac) ==
   LET raw == MacroExpand(mac.body)
       v == VisRec(NormRec(raw, {}, <<>>), 0, 0, <<>>)
   IN [steps |-> v.steps, N |-> Len(v.steps), trail |-> v.trail,
+      lead |-> IF v.steps = <<>> THEN 0 ELSE v.steps[1].w,     \* delay written before the first visible step
       keys |-> {raw[i].k : i \in {j \in DOMAIN raw : raw[j].t = "d"}},
       chars |-> {raw[i].ch : i \in {j \in DOMAIN raw : raw[j].t = "U"}},
       vouts |-> {raw[i].k : i \in {j \in DOMAIN raw : raw[j].t = "v"}},
@@ -144,6 +156,7 @@ MonInit(p) ==
    acts |-> <<>>,     \* activations in the sharp zone, oldest first
    dused |-> {},      \* macros with an activation outside the sharp zone since the last idle point
    nreg |-> 0,        \* macros started since the last idle point (capped)
+   npc |-> 0,         \* cancel-on-press macros among them (capped at 2)
    over |-> FALSE,    \* more than cap macros were started without an idle point in between: the documented
                       \* capacity may be exceeded, only E1 / B1 are judged until kanata has settled
    down |-> {},       \* macro keys down at the OS
@@ -168,15 +181,18 @@ NewAct(m, mi) ==
 
 SharpCancelled(a) == a.st \in {"canc", "cleaning"} /\ a.ttlC >= 0
 
-CancelAll(m, ttlS, ttlC, kind) ==
+\* imm: the cancellation acts at the arrival of the input (cancel-on-press): macros whose activating press is
+\* still queued are not running yet and are not affected
+CancelAll(m, ttlS, ttlC, kind, imm) ==
   LET upd == [i \in DOMAIN m.acts |->
                 LET a == m.acts[i] IN
-                IF a.st = "live" \/ (a.st = "canc" /\ a.ttlC < 0 /\ ttlC >= 0)
+                IF (a.st = "live" \/ (a.st = "canc" /\ a.ttlC < 0 /\ ttlC >= 0))
+                   /\ (~imm \/ a.proc = 0 \/ ~SharpQ(m))
                 THEN [a EXCEPT !.st = IF ttlS = 0 THEN "cleaning" ELSE "canc", !.ttlS = ttlS, !.ttlC = ttlC]
                 ELSE a]
       \* a unicode item already taken up by a cancelled macro comes out at some later tick (it waits for a
       \* tick without another custom action): such activations leave the sharp zone
-      uni(a) == m.x[a.mi].chars # {}
+      uni(a) == m.x[a.mi].chars # {} /\ a.st # "live"
   IN [m EXCEPT !.lastc = kind,
                !.acts = SelectSeq(upd, LAMBDA a : ~uni(a)),
                !.dused = @ \cup {upd[i].mi : i \in {j \in DOMAIN upd : uni(upd[j])}}]
@@ -191,12 +207,14 @@ MonIn(m, r) ==
     IN IF m.over THEN m0
        ELSE IF r.e = "d"
        THEN LET \* C3: a cancel-on-press macro in its first round, processed and still with steps to play
-                must == SharpQ(m) /\ \E i \in DOMAIN m.acts :
+                \* (the documentation describes one trigger; with several cancel-on-press macros started
+                \* together which of them arms it is not specified: no claim then)
+                must == SharpQ(m) /\ m.npc = 1 /\ \E i \in DOMAIN m.acts :
                           LET a == m.acts[i] IN
                           /\ a.st = "live" /\ p.macros[a.mi].pc /\ a.proc = 0 /\ a.rnd = 1
                           /\ a.pos < m.x[a.mi].N /\ p.macros[a.mi].c # r.c
-                m1 == IF must THEN CancelAll(m0, 0, 1, "pc")
-                      ELSE IF m.trig THEN CancelAll(m0, 0 - 1, 0 - 1, "pc?") ELSE m0
+                m1 == IF must THEN CancelAll(m0, 0, 1, "pc", TRUE)
+                      ELSE IF m.trig THEN CancelAll(m0, 0 - 1, 0 - 1, "pc?", TRUE) ELSE m0
             IN IF mi = 0 THEN m1
                ELSE LET confl == {i \in DOMAIN m1.acts : ~SharpCancelled(m1.acts[i]) /\ Overlap(m, m1.acts[i].mi, mi)}
                         dconfl == \E j \in m.dused : Overlap(m, j, mi)
@@ -206,18 +224,21 @@ MonIn(m, r) ==
                        ELSE IF confl # {} \/ dconfl
                        THEN \* the projections on the macro's keys interleave: outside the sharp zone
                             [m1 EXCEPT !.nreg = @ + 1, !.trig = @ \/ p.macros[mi].pc, !.acts = keep,
+                                       !.npc = IF p.macros[mi].pc THEN OMin(@ + 1, 2) ELSE @,
                                        !.dused = @ \cup {mi} \cup {m1.acts[i].mi : i \in confl}]
                        ELSE [m1 EXCEPT !.nreg = @ + 1, !.trig = @ \/ (p.macros[mi].pc /\ ~SharpQ(m)),
+                                       !.npc = IF p.macros[mi].pc THEN OMin(@ + 1, 2) ELSE @,
                                        !.acts = Append(m1.acts, NewAct(m, mi))]
        ELSE IF mi = 0 THEN m0
        ELSE LET sharp == SharpQ(m)
                 m1 == [m0 EXCEPT !.acts = [i \in DOMAIN m.acts |->
                                              LET a == m.acts[i] IN
                                              IF a.mi = mi /\ a.key
-                                             THEN [a EXCEPT !.key = FALSE, !.rttl = IF sharp THEN m.ql + 2 ELSE 0 - 1]
+                                             THEN [a EXCEPT !.key = FALSE, !.rttl = IF sharp THEN m.ql + 2 + m.x[mi].lead ELSE 0 - 1]
                                              ELSE a]]
             IN IF p.macros[mi].rc
-               THEN IF sharp THEN CancelAll(m1, m.ql + 1, m.ql + 2, "rc") ELSE CancelAll(m1, 0 - 1, 0 - 1, "rc")
+               THEN IF sharp THEN CancelAll(m1, m.ql + 1, m.ql + 2, "rc", FALSE)
+                    ELSE CancelAll(m1, 0 - 1, 0 - 1, "rc", FALSE)
                ELSE m1
 
 \* ---- matching one OS event against the activations
@@ -352,6 +373,7 @@ MonTick(m, out, idle, cb) ==
                   !.ql = IF idle THEN 0 ELSE OMax(m.ql - 1, 0),
                   !.gapIn = 0, !.lastIdle = idle,
                   !.nreg = IF idle THEN 0 ELSE @,
+                  !.npc = IF idle THEN 0 ELSE @,
                   !.dused = IF idle THEN {} ELSE @,
                   !.trig = IF idle THEN FALSE
                            ELSE @ \/ \E i \in DOMAIN acts2 : p.macros[acts2[i].mi].pc /\ acts2[i].proc = 0,
@@ -363,7 +385,7 @@ RECURSIVE MonSilent(_, _, _, _)
 MonSilent(m, n, idle, cb) ==
   IF n = 0 \/ m.err # "" THEN m
   ELSE IF m.acts = <<>> /\ m.ql = 0 /\ m.gapIn = 0 /\ m.lastIdle = idle /\ idle /\ ~m.over /\ ~m.trig
-          /\ m.lastc = "none" /\ m.vbal = 0 /\ m.down = {} /\ m.dused = {} /\ m.nreg = 0
+          /\ m.lastc = "none" /\ m.vbal = 0 /\ m.down = {} /\ m.dused = {} /\ m.nreg = 0 /\ m.npc = 0
   THEN m
   ELSE MonSilent(MonTick(m, <<>>, idle, cb), n - 1, idle, cb)
 =============================================================================
